@@ -18,6 +18,7 @@ ap.add_argument("--seed", type=int, default=1)
 ap.add_argument("--out", default="/verif/seeded/mutation_sweep.jsonl")
 ap.add_argument("--files", default=".")
 ap.add_argument("--scale", default="0.6")
+ap.add_argument("--ops", default="syntactic", help="syntactic | names (swap storage accessors / struct fields / locals)")
 args = ap.parse_args()
 env = dict(os.environ, CARGO_NET_OFFLINE="true", LP_REPO=f"{SCR}/repo", LP_HARNESS_DIR=f"{SCR}/harness",
            LP_EVIDENCE_DIR=f"{SCR}/evidence", LP_REPLAY_DIR=f"{SCR}/replays", LP_ALL_SCALE=args.scale)
@@ -94,6 +95,30 @@ for path in files:
                 cands.append((path, i, l, new, f"{pat.strip()} -> {rep.strip() or '(removed)'}"))
         if DELETE.match(l):
             cands.append((path, i, l, "", "delete statement"))
+if args.ops == "names":
+    # wrong-name mutants: a storage accessor, a struct field or a local replaced by a sibling from the same file
+    cands = []
+    for path in files:
+        text = open(path).read()
+        lines = text.split("\n")
+        accessors = sorted(set(re.findall(r"self\s*\.\s*([a-z_]+)\(", text)))
+        fields = sorted(set(re.findall(r"\.([a-z_]+)\b(?!\()", text)) & set(re.findall(r"pub ([a-z_]+):", text) + re.findall(r"^\s+([a-z_]+):", text, re.M)))
+        for i, l in enumerate(lines):
+            st = l.strip()
+            if "verif" in l or st.startswith("//") or st.startswith("#[") or st.startswith("use ") or st.startswith("fn ") or st.startswith("pub ") or (i > 0 and "cfg(feature" in lines[i - 1]):
+                continue
+            code = l.split('"')[0] if '"' in l else l
+            for m in re.finditer(r"self\s*\.\s*([a-z_]+)\(", code):
+                for other in accessors:
+                    if other != m.group(1):
+                        new = l[:m.start(1)] + other + l[m.end(1):]
+                        cands.append((path, i, l, new, f"accessor {m.group(1)} -> {other}"))
+            for m in re.finditer(r"\.([a-z_]+)\b(?!\()", code):
+                if m.group(1) in fields:
+                    for other in fields:
+                        if other != m.group(1):
+                            new = l[:m.start(1)] + other + l[m.end(1):]
+                            cands.append((path, i, l, new, f"field {m.group(1)} -> {other}"))
 rng = random.Random(args.seed)
 rng.shuffle(cands)
 # stratify: at most ~ n/len(files)+2 per file
